@@ -104,12 +104,27 @@ Definition E_KEY : Z := 4.
 Definition E_TYPE : Z := 7.
 Definition E_CRASH : Z := 8.
 
-(* item.get("children") when it is a non-empty list; otherwise no recursion
-   ([if child_items:]) *)
-Definition kids_of (d : jdict) : list jv :=
-  match dget k_children d with Some (JList l) => l | _ => [] end.
+(* Python truthiness of a JSON value *)
+Definition truthy (v : jv) : bool :=
+  match v with
+  | JNull | JBool false | JInt 0 | JStr [] | JList [] | JDict [] => false
+  | _ => true
+  end.
 
-(* decoded item: its dict and the decoded child items; [PBad] = not a dict *)
+(* item.get("children"): a list is iterated ([if child_items:] skips an empty
+   one); a falsy value means no recursion; a truthy value that is not a list
+   (str, dict, number, True) makes the recursive call fail with a TypeError in
+   its first iteration – exactly what a list holding one non-dict item does,
+   so it is rendered as [[JNull]] *)
+Definition kids_of (d : jdict) : list jv :=
+  match dget k_children d with
+  | Some (JList l) => l
+  | Some v => if truthy v then [JNull] else []
+  | None => []
+  end.
+
+(* decoded item: its dict and the decoded child items; [PBad] = not a dict
+   (item["data"] / the mapper's item["data"] raises TypeError) *)
 Inductive pt := PT (d : jdict) (kids : list pt) | PBad.
 
 (* structural decoding; the inner [find] is [map parse (kids_of d)] spelled so
@@ -122,7 +137,7 @@ Fixpoint parse (j : jv) : pt :=
                | [] => []
                | (k, v) :: r =>
                    if text_eqb k_children k
-                   then match v with JList l => map parse l | _ => [] end
+                   then match v with JList l => map parse l | _ => if truthy v then [PBad] else [] end
                    else find r
                end) d)
   | _ => PBad
@@ -160,7 +175,7 @@ Section FromDict.
      assigned afterwards ([renum]): they do not influence anything here. *)
   Fixpoint fd_item (p : pt) (seen : list did) {struct p} : res rt :=
     match p with
-    | PBad => inr E_CRASH
+    | PBad => inr E_TYPE
     | PT d kids =>
         match dd (dget k_data d) with
         | inr e => inr e
